@@ -50,7 +50,7 @@ CLAIMS = {
         "Decides, as identities between partially evaluated operators over kinds x heavyness x schemes x orders: NC with the Z propagator ratios "
         "set to zero == EM and each ratio carries Q2/(MZ^2+Q2); positron(P) == electron(-P); antineutrino/e+ CC operators == neutrino/e- ones with "
         "parton rows conjugated and a minus sign for parity-violating kinds (symbolic CKM); ZM-VFNS rows of active quarks with identical "
-        "electroweak charges coincide. NOT decided: numerical values.",
+        "electroweak charges coincide (also at the last point of a run that served other flavour numbers before). NOT decided: numerical values.",
         "Trusted: CPython ast; yadsa partial evaluator and summaries; algebra.subs; heavy coefficient functions folded above threshold.",
         "DESIGN.md section 3, C13",
     ),
@@ -87,7 +87,9 @@ CLAIMS = {
         "channel provide every power of the collinear logarithm. An asymptotic term without massive counterpart can never cancel; a massive "
         "term without asymptotic partner does not vanish. Also: every asymptotic kernel carries the mass of the quark its weights name; vector and "
         "axial weights multiply the same kernel combination; every massive / asymptotic / intrinsic kernel is a function of its arguments "
-        "(repeated evaluation folds to the same function).",
+        "(repeated evaluation folds to the same function)."
+        " Also: the light-quark initiated massive kernel carries a delta(1-z) part exactly where the Born coefficient of the kind and the asymptotic "
+        "family do (the local part is the virtual correction, proportional to the Born term).",
         "Trusted: CPython ast; yadsa partial evaluator with opaque weights and kernel provenance; F_L(LO, massive) is proportional to m^2/Q^2.",
         "DESIGN.md section 3, C08",
     ),
@@ -110,7 +112,7 @@ CLAIMS = {
         "nodes, the integrals being the opaque quadratures of the kernels whose folded closed form is z/xi, 1-z, z ln(1/z)/xi convolved with the "
         "right structure function; xi, rho, mu and shifted kinematics equal their definitions; the result carries the requested x, Q2; integral "
         "coefficients vanish and the F(xi) coefficient tends to 1 as M -> 0; with a target mass of exactly 0 the corrected operator is the "
-        "uncorrected one; the corrected operator does not depend on other observables sharing its kinematics objects. NOT decided: quadrature accuracy (rejection guards: C16.kin).",
+        "uncorrected one; the corrected operator does not depend on other observables sharing its kinematics objects. A request whose Nachtmann point lies below the first grid node ends in an explicit rejection in every mode (concrete kinematics). NOT decided: quadrature accuracy.",
         "Trusted: CPython ast; yadsa partial evaluator; the literature formulas written in rules/c10.py (not taken from the code); yadism's F3 "
         "is xF3 and g1 is 2xg1 (C02.lo).",
         "DESIGN.md section 3, C10",
@@ -133,7 +135,7 @@ CLAIMS = {
         "c,b,t with origin (Q0^2, nf0), nf_default is evaluated exactly once per point with that point's Q2 and that atlas, ZM-VFNS operators are "
         "identical for different NfFF and free of mass/threshold symbols, no operator contains threshold-ratio symbols, every beta coefficient "
         "of the scale-variation terms is evaluated at that same nf; the installed eko source has nf = 2 + digitize(Q2, [0]+scales+[inf]) with "
-        "right=False (scale^2 <= Q2 counts as active). NOT decided: floating-point behaviour one ulp around a threshold.",
+        "right=False (scale^2 <= Q2 counts as active); within one runner every point - after points of other flavour regions, with either variation alone, or 1e-12 away from another requested point across a matching scale - carries the terms of its own number of flavours. NOT decided: floating-point behaviour one ulp around a threshold.",
         "Trusted: CPython ast; yadsa partial evaluator; eko.matchings (audited structurally each run); mc kc < mb kb < mt kt.",
         "DESIGN.md section 3, C06",
     ),
@@ -208,7 +210,7 @@ CLAIMS = {
         "partons the PDF lacks never queried; x, Q2, y echoed; unset Q2 rejected) - hence linear in the PDF; Output routes pids, xgrid, alpha_s, "
         "alpha_qed, xiR, xiF to every point in order and skips None observables/metadata; apply_pdf_theory uses a_s(muR^2, nf_to=NfFF) x 4 pi for "
         "FFNS/FFN0/FONLL-*, a_s(muR^2, nf_to=nf_default(muR^2, atlas((m_q k_q)^2; Qref^2, nfref))) x 4 pi for ZM-VFNS, builds Couplings from the "
-        "card's couplings/order/masses, takes alphaqed, XIR, XIF from the card in order, and raises on an unknown scheme. NOT decided: eko's running.",
+        "card's couplings/order/masses, takes alphaqed, XIR, XIF from the card in order, and raises on an unknown scheme; Output.apply_pdf forwards the output's own card; MaskedPDF answers 0 for masked pids. NOT decided: eko's running.",
         "Trusted: CPython ast; yadsa partial evaluator; numpy.einsum('aj,aj') = double contraction; the eko.io.runcards/eko.couplings API shape "
         "summarised in rules/c17.py.",
         "DESIGN.md section 3, C17",
